@@ -61,7 +61,7 @@ def xbucket(exc: BaseException) -> str:
     return b
 
 
-_CARET_RANGE_FIRST = re.compile(r"\[\\\^-[^\]]")
+_CARET_HEAD_WITHOUT_END = re.compile(r"\[\\\^(?!-)")
 
 
 def tree_features(regex: Any) -> Set[str]:
@@ -144,7 +144,9 @@ def compare(P: str, Q: str, feats: Set[str], strings: Sequence[str]) -> Tuple[Li
     doms = [domain(feats, s) for s in strings]
     # the renderer drops the end of a range that starts with an escaped caret at the head of a set
     # (found by C16, proposed fix C16-caret-range-first-in-set-loses-end.diff): own bucket
-    caret = bool(_CARET_RANGE_FIRST.search(P)) and "[\\^]" in Q
+    # (after the rewriting the BMP part of a mixed set is a set of its own, so the range may head it
+    # only in Q)
+    caret = "^-" in P and bool(_CARET_HEAD_WITHOUT_END.search(Q))
 
     def run() -> None:
         for s, d in zip(strings, doms):
